@@ -1,6 +1,7 @@
 package namer
 
 import (
+	"go/token"
 	"slices"
 	"strconv"
 	"strings"
@@ -45,6 +46,11 @@ func (tracker *defaultImportTracker) add(path string) {
 
 	for i := range len(parts) {
 		localName := golangTrackerLocalName(parts, i+1)
+
+		// keyword or name starts with digit can't be import name
+		if !token.IsIdentifier(localName) {
+			continue
+		}
 
 		if tracker.checkStd {
 			if p, ok := std.nameToPath[localName]; ok && p != path {
